@@ -461,6 +461,27 @@ end
 /-- a fuel that is generous for every program met in practice: (number of state values + 2)² -/
 def fuelOf (L : LBlock) : Nat := ((ldefsB L).length + 2) * ((ldefsB L).length + 2)
 
+/- Decidable shape of an owner table with ids below `K`: every link goes to a smaller id, except the yield operand of a
+loop-carried block argument (the one cycle, cut by `assume`); every link target has an owner. Under these two checks
+`fuelOf` is enough fuel for `inferL` (`inferL_fuel_suffices`); the driver evaluates them on every case. -/
+def rankedChk (l : List (StateId × LDef)) (K : Nat) : Bool :=
+  l.all fun p =>
+    decide (p.1 < K) &&
+    match p.2 with
+    | .setup none _ => true
+    | .setup (some i) _ => decide (i < p.1)
+    | .ifRes t e => decide (t < p.1) && decide (e < p.1)
+    | .forRes i y => decide (i < p.1) && decide (y < p.1)
+    | .forArg i y => decide (i < p.1) && decide (y < K)
+def ldefTargets : LDef → List StateId
+  | .setup none _ => []
+  | .setup (some i) _ => [i]
+  | .ifRes t e => [t, e]
+  | .forRes i y => [i, y]
+  | .forArg i y => [i, y]
+def closedChk (l : List (StateId × LDef)) : Bool :=
+  l.all fun p => (ldefTargets p.2).all fun t => (l.lookup t).isSome
+
 /- a setup never names a field twice (then `dupdate` = `upd` of Model/Accfg.lean) -/
 mutual
 def nodupPS : PStmt → Bool
